@@ -130,7 +130,12 @@ class ModbusTransactionManager(object):
                 broadcast = (self.client.broadcast_enable
                              and request.unit_id == 0)
                 if broadcast:
-                    self._transact(request, None, broadcast=True)
+                    _, last_exception = self._transact(request, None,
+                                                       broadcast=True)
+                    if last_exception:
+                        # the request could not be written
+                        raise ModbusIOException(last_exception,
+                                                request.function_code)
                     response = b'Broadcast write sent - no response expected'
                 else:
                     expected_response_length = None
